@@ -50,7 +50,13 @@ use std::fs;
 use std::io::{self, Read, Seek, SeekFrom, Write};
 use std::mem::size_of;
 use std::path::{Path, PathBuf};
+#[cfg(not(cfb_verif))]
 use std::sync::{Arc, RwLock, RwLockReadGuard, RwLockWriteGuard};
+#[cfg(cfb_verif)]
+use {
+    crate::internal::sync::{RwLock, RwLockReadGuard, RwLockWriteGuard},
+    std::sync::Arc,
+};
 
 use fnv::FnvHashSet;
 use uuid::Uuid;
@@ -65,6 +71,14 @@ pub use crate::internal::{Entries, Entry, Stream, Version};
 
 #[macro_use]
 mod internal;
+
+/// Verification hooks (only with `--cfg cfb_verif`).
+#[cfg(cfb_verif)]
+pub mod verif {
+    pub use crate::internal::sync::{
+        set_thread_observer, LockKind, LockObserver,
+    };
+}
 
 //===========================================================================//
 
